@@ -1,21 +1,25 @@
 """C04 — linked modules share state exactly as the specification says."""
 import json
+from concurrent.futures import ThreadPoolExecutor
 from vcheck import *
 from wcommon import *
 
 LINK_ERR = {1, 2, 3, 4, 5, 6, 7, 8, 20, 21}
 EVENT_NAMES = {0: "instantiate-class", 1: "call-result", 2: "snapshot-globals", 3: "snapshot-memory", 4: "snapshot-pages"}
+# deviations from the specification that are open findings (each has its own sig); they do not explain a model mismatch
+DEVIATIONS = ("memory-import-max-vs-unbounded", "elem-oob-ignored", "note-stricter")
 
 
-def coq_actions(c, obs):
-    """(Coq text of the action list, step index of every action) for one engine's run."""
+def coq_actions(c, obs, ci=None):
+    """(Coq text of one engine's history, step index of every action). With ci, modules are referred to by the
+    names md_<ci>_<n> (defined once per case by coq_mod_defs and shared by both engines' histories)."""
     acts, idx = [], []
     for si, (st, o) in enumerate(zip(c["steps"], obs)):
-        if o.get("skip"):
+        if o.get("skip") or st.get("tag") == "pre":   # "pre" snapshots serve the Python frame oracle only
             continue
         k = st["k"]
         if k == "inst":
-            acts.append("AInst %s %d" % (c["mods"][st["n"]]["coq"], o["code"]))
+            acts.append("AInst %s %d" % (c["mods"][st["n"]]["coq"] if ci is None else "md_%d_%d" % (ci, st["n"]), o["code"]))
         elif k == "call":
             ob = ("OTrap %d" % trap_code(o["trap"])) if o.get("trap") else ("ORes " + zl(o.get("res") or []))
             acts.append("ACall %d %d %s (%s)" % (st["n"], st["f"], zl(st.get("args") or []), ob))
@@ -26,14 +30,21 @@ def coq_actions(c, obs):
     return "(%d, [\n %s])" % (c["limit"], ";\n ".join(acts)), idx
 
 
-def eval_link(name, items, shard=12, workers=10):
-    """evaluate link_events over the cases in parallel shards; (events, error text or None)"""
-    from concurrent.futures import ThreadPoolExecutor
+def coq_mod_defs(c, ci):
+    return "".join("Definition md_%d_%d : modul := %s.\n" % (ci, m["n"], m["coq"]) for m in c["mods"])
 
+
+def eval_link(name, items, defs, shard=20, workers=10):
+    """evaluate Rt.LinkCheck.link_events over the histories in parallel shards; (events, error text or None).
+    defs[i]: definitions needed by items[i] (emitted once per shard)."""
     def one(s):
         part = items[s:s + shard]
+        dd = []
+        for d in defs[s:s + shard]:
+            if d not in dd: dd.append(d)
         v = ("From Coq Require Import ZArith List. Import ListNotations.\n"
              "From Verif Require Import Wasm.Numerics Wasm.Sem Wasm.Harness Rt.Linking Rt.LinkCheck.\nOpen Scope Z_scope.\n"
+             + "".join(dd) +
              "Definition cases : list lcase := [\n" + ";\n".join(part) + "].\n"
              "Definition M := Eval vm_compute in link_events 0 cases.\nPrint M.\n")
         rc, o = coq_eval("%s_%d" % (name, s), v, timeout=900)
@@ -71,32 +82,40 @@ def spec_import_ok(im, cur, live):
 def memdict(o): return {a: v for a, v in (o.get("mem") or [])}
 
 
-def oracle(c, eng, obs, limit):
-    """The property on one engine's observations alone. Yields (kind, sig-extras, text)."""
-    live = set()
-    mods = c["mods"]
-    snaps = {}  # (tag, of, n) -> obs
+def oracle(c, eng, obs):
+    """The property judged on one engine's observations alone. Yields (kind, sig-extras, text, step index)."""
+    live, codes, mods, limit = set(), {}, c["mods"], c["limit"]
+    snaps = {}
     for si, (st, o) in enumerate(zip(c["steps"], obs)):
         if o.get("skip"): continue
         k = st["k"]
         if k == "snap":
             snaps[(st.get("tag"), st.get("of", 0), st["n"])] = o
+            if st.get("tag") == "self":   # values captured at instantiation are the current values of what they refer to
+                for gi, want in enumerate(mods[st["n"]].get("ginit") or []):
+                    if want is not None and o["globals"][gi] != want:
+                        yield ("init-not-current", {}, "step %d: global %d of instance %d is %d right after instantiation, the value it refers to is %d"
+                               % (si, gi, st["n"], o["globals"][gi], want), si)
         elif k == "call":
             t = o.get("trap") or ""
             if t.startswith("other") or t == "gopanic":
-                yield ("unusable-after", {}, "step %d: call on instance %d failed outside the WebAssembly trap classes: %s %s" % (si, st["n"], t, o.get("err")))
+                yield ("unusable-after", {}, "step %d: call on instance %d failed outside the WebAssembly trap classes: %s %s" % (si, st["n"], t, o.get("err")), si)
             if st.get("expect") is not None:
+                m = mods[st.get("of", 0)]
+                if st["probe"] == "table" and m["fault"] in ("data", "start") and codes.get(m["n"]) not in (30, 31):
+                    continue  # the expectation presumes that the instantiation got as far as its segments
                 if (o.get("res") or [None])[0] != st["expect"]:
-                    m = mods[st.get("of", 0)]
                     if st["probe"] == "table" and m["fault"] == "data":
-                        yield ("data-before-elements", {}, "step %d: element segment of the instantiation that failed on a data segment is not in the shared table: %s" % (si, o))
+                        yield ("data-before-elements", {}, "step %d: element segment of the instantiation that failed on a data segment is not in the shared table: %s" % (si, o), si)
                     else:
-                        yield ("shared-object", {"object": st["probe"]}, "step %d: %s written through one instance, read through instance %d: expected %d, observed %s" % (si, st["probe"], st["n"], st["expect"], o))
+                        yield ("shared-object", {"object": st["probe"]}, "step %d: %s written through one instance, read through instance %d: expected %d, observed %s"
+                               % (si, st["probe"], st["n"], st["expect"], {k2: o.get(k2) for k2 in ("res", "trap")}), si)
         elif k == "inst":
             m = mods[st["n"]]
             code = o["code"]
+            codes[st["n"]] = code
             if m["fault"] == "mutoff" and code != 98:
-                yield ("elem-offset-mutable-global", {}, "step %d: element offset global.get of a mutable import accepted (class %d)" % (si, code))
+                yield ("elem-offset-mutable-global", {}, "step %d: element offset global.get of a mutable import accepted (class %d)" % (si, code), si)
             if code == 98:
                 continue
             bad = [i for i, im in enumerate(m["imports"]) if not spec_import_ok(im, (o.get("cur") or {}).get(str(i), -1), live)]
@@ -104,11 +123,11 @@ def oracle(c, eng, obs, limit):
             if accepted and bad:
                 im = m["imports"][bad[0]]
                 if im["kind"] == 2 and im["xkind"] == 2 and im["hasmax"] and not im["xhasmax"] and im["max"] >= limit:
-                    yield ("memory-import-max-vs-unbounded", {}, "step %d: memory import with max %d accepted against an exporter without max" % (si, im["max"]))
+                    yield ("memory-import-max-vs-unbounded", {}, "step %d: memory import with max %d accepted against an exporter without max" % (si, im["max"]), si)
                 else:
-                    yield ("accepts-spec-rejects", {"extern": im["kind"]}, "step %d: import %s accepted, extern_match rejects it" % (si, im))
+                    yield ("accepts-spec-rejects", {"extern": im["kind"]}, "step %d: import %s accepted, extern_match rejects it" % (si, im), si)
             if not accepted and not bad:
-                yield ("note-stricter", {}, "step %d: class %d although every import matches (%s)" % (si, code, o.get("err")))
+                yield ("note-stricter", {}, "step %d: class %d although every import matches (%s)" % (si, code, o.get("err")), si)
             if code == 0:
                 live.add(st["n"])
                 continue
@@ -122,37 +141,60 @@ def oracle(c, eng, obs, limit):
                 if pre is None or post is None or code == 31:
                     continue
                 if pre["globals"] != post["globals"] or pre["pages"] != post["pages"]:
-                    yield ("failed-instantiation-frame", {"class": code}, "step %d: instance %d globals/pages changed by a failed instantiation" % (si, n))
+                    yield ("failed-instantiation-frame", {"class": code}, "step %d: instance %d globals/pages changed by a failed instantiation" % (si, n), si)
                 want = memdict(pre)
                 if code == 30 and mods[n]["memof"] == m["memof"] and m["memof"] >= 0:
                     for seg in (m["datas"] or [])[:o["failidx"]]:
                         for j, b in enumerate(seg[1:]):
                             want[seg[0] + j] = b
                 if {a: v for a, v in want.items() if v} != memdict(post):
-                    yield ("failed-instantiation-frame", {"class": code}, "step %d: instance %d memory after the failed instantiation is not (before + the data segments preceding the failing one)" % (si, n))
+                    yield ("failed-instantiation-frame", {"class": code},
+                           "step %d: instance %d memory after the failed instantiation is not (before + the data segments preceding the failing one)" % (si, n), si)
+
+
+def is_reexport_call(c, si):
+    """the step is a call of / through a function the instance imports: the class of the repaired compiler defect 5c1e7ea"""
+    if si is None or si < 0: return False
+    st = c["steps"][si]
+    return st["k"] == "call" and (st.get("tag") == "reexport" or st["f"] < c["mods"][st["n"]]["nimpf"])
+
+
+def hazard_before(c, si):
+    """some call at or before step si goes through an import whose exporter imports functions itself: exactly the calls
+    the repaired defect 5c1e7ea sent to the wrong function (possibly silently, so that the state diverges only later)"""
+    if si is None or si < 0: return False
+    for st in c["steps"][:si + 1]:
+        if st["k"] != "call": continue
+        if st.get("tag") == "reexport": return True
+        m = c["mods"][st["n"]]
+        if st["f"] < m["nimpf"]:
+            im = [i for i in m["imports"] if i["kind"] == 0][st["f"]]
+            if im["mod"] < len(c["mods"]) and c["mods"][im["mod"]]["nimpf"] > 0: return True
+    return False
 
 
 def engines_differ(c):
     a, b = c["engines"]["interp"], c["engines"]["compiler"]
+    keys = ("skip", "code", "res", "trap", "globals", "mem", "pages")
     for si, (x, y) in enumerate(zip(a, b)):
         if "exhaust" in (x.get("trap"), y.get("trap")): return None
-        px = {k: x.get(k) for k in ("skip", "code", "res", "trap", "globals", "mem", "pages")}
-        py = {k: y.get(k) for k in ("skip", "code", "res", "trap", "globals", "mem", "pages")}
+        px, py = {k: x.get(k) for k in keys}, {k: y.get(k) for k in keys}
         if px != py:
-            return "step %d %s: interpreter %s, compiler %s" % (si, c["steps"][si], str(px)[:300], str(py)[:300])
+            return si, "step %d %s: interpreter %s, compiler %s" % (si, c["steps"][si], str(px)[:300], str(py)[:300])
     return None
 
 
 def run(tier, seed):
     ck = Check("C04", tier, seed)
     ck.trusted += ["tools/go2coq (memoryBytesNumToPages, MemoryPagesToBytesNum, newMemorySizer regenerated on every run)",
-                   "hand transcription of resolveImports / instantiate / applyElements / applyData into coq/Rt/Linking.v, tied by the correspondence run",
+                   "hand transcription of resolveImports / instantiate / applyElements / applyData / the constant-expression validators into coq/Rt/Linking.v, tied by the correspondence run",
                    "coq/Wasm/Sem.v (reference semantics W), coq/Rt/LinkCheck.v, harness/c04 (generator, encoder, Coq printer), checks/c04.py (oracle)"]
-    ck.assumptions += ["value types i32/i64 and funcref tables only; one memory and one table per module; no table.grow/table.set, no passive segments",
+    ck.assumptions += ["value types i32/i64 and funcref tables only; one memory and one table per module; no table.grow/table.set, no passive segments, no ref.null element entries",
                        "at most one incompatible import per generated module (resolveImports iterates a Go map: with several, the reported error class is not deterministic)",
+                       "default page limit (65536) in the run; the theorem takes the limit as a parameter and assumes declared maxima within it",
                        "closing an exporter while importers are live is C09/C10, not this property"]
     proofs_ok = ck.proofs()
-    n = 110 if tier == "quick" else 4000
+    n = 90 if tier == "quick" else 6000
     binp, log = build_harness("c04")
     if not binp:
         ck.violation("harness-build", {"kind": "build"}, {"log": log[-3000:]}, no_input=True)
@@ -164,41 +206,42 @@ def run(tier, seed):
         return ck.finish()
     dist = {"instantiations": {}, "import_variants": {}, "probes": {"mem": 0, "global": 0, "table": 0}, "calls": 0, "traps": {}, "skipped_steps": 0,
             "stricter_than_spec": 0, "model_out_of_fuel": 0, "elem_oob_ignored": 0}
-    shown = {}
+    shown = set()
 
-    def viol(kind, sig, detail, **kw):
-        # the witness of the re-exported-import defect: whatever goes wrong there under the compiler is that defect
-        if detail.get("witness") == "w-reexport" and (sig.get("engine", "compiler") == "compiler") and kind not in ("elem-oob-ignored", "memory-import-max-vs-unbounded"):
-            kind, sig = "reexported-import-host-call", {"kind": "reexported-import-host-call"}
-            kw.pop("no_input", None)
+    def viol(kind, sig, c, eng, si, detail, no_input=False):
+        # a compiler-only anomaly on a call of an imported function is the (repaired) re-export defect coming back
+        if (eng in ("compiler", None) and (is_reexport_call(c, si) or hazard_before(c, si))
+                and (kind in ("engines-disagree", "unusable-after") or kind == "model-differs")):
+            if not any(w[3] == si for w in oracle(c, "interp", c["engines"]["interp"])):
+                kind, sig, no_input = "reexported-import-host-call", {"kind": "reexported-import-host-call"}, False
         key = json.dumps(sig, sort_keys=True)
-        if shown.get(key, 0) >= 1: return
-        shown[key] = shown.get(key, 0) + 1
-        ck.violation(kind, sig, detail, **kw)
+        if key in shown: return
+        shown.add(key)
+        detail = dict(detail, case=c["id"], witness=c.get("witness"), engine=eng, step_index=si, step=(c["steps"][si] if si is not None and si >= 0 else None),
+                      mods=[dict(n=m["n"], fault=m["fault"], imports=m["imports"], wasm=m["wasm"]) for m in c["mods"]])
+        ck.violation(kind, sig, detail, no_input=no_input)
 
     nontrivial = 0
-    items, owner = [], []
+    items, owner, defs = [], [], []
     for ci, c in enumerate(cases):
         c["limit"] = c.get("limit", 65536)
         for eng in ("interp", "compiler"):
             obs = c["engines"].get(eng)
             if not obs:
-                viol("engine-error", {"kind": "engine-error", "engine": eng}, {"case": c["id"]}); continue
-            txt, idx = coq_actions(c, obs)
-            items.append(txt); owner.append((ci, eng, idx))
-            for kind, extra, text in oracle(c, eng, obs, c["limit"]):
+                viol("engine-error", {"kind": "engine-error", "engine": eng}, c, eng, None, {}); continue
+            txt, idx = coq_actions(c, obs, ci)
+            items.append(txt); owner.append((ci, eng, idx)); defs.append(coq_mod_defs(c, ci))
+            for kind, extra, text, si in oracle(c, eng, obs):
                 if kind == "note-stricter":
                     dist["stricter_than_spec"] += 1
-                    if len(ck.notes) < 30 and dist["stricter_than_spec"] <= 3: ck.note("stricter than the specification (allowed): " + text)
+                    if dist["stricter_than_spec"] <= 2: ck.note("stricter than the specification (allowed by 'only if'): " + text)
                     continue
                 sig = dict(kind=kind, **extra)
-                if kind in ("shared-object", "failed-instantiation-frame", "unusable-after", "accepts-spec-rejects"): sig["engine"] = eng
-                viol(kind, sig, {"oracle": text, "case": c["id"], "witness": c.get("witness"), "engine": eng,
-                                 "mods": [dict(n=m["n"], fault=m["fault"], imports=m["imports"], wasm=m["wasm"]) for m in c["mods"]], "steps": c["steps"][:60]})
+                if kind in ("shared-object", "failed-instantiation-frame", "unusable-after", "accepts-spec-rejects", "init-not-current"): sig["engine"] = eng
+                viol(kind, sig, c, eng, si, {"oracle": text})
         d = engines_differ(c)
         if d:
-            viol("engines-disagree", {"kind": "engines-disagree"}, {"oracle": d, "case": c["id"], "witness": c.get("witness"), "mods": [m["wasm"] for m in c["mods"]]})
-        # distribution
+            viol("engines-disagree", {"kind": "engines-disagree"}, c, None, d[0], {"oracle": d[1]})
         obs = c["engines"].get("compiler") or []
         okprobe = 0
         for st, o in zip(c["steps"], obs):
@@ -221,46 +264,43 @@ def run(tier, seed):
     ck.distinct = nontrivial
     ck.dist = dist
     ck.samples = [dict(id=c["id"], witness=c.get("witness"), mods=[dict(n=m["n"], fault=m["fault"], imports=[(i["kind"], i["variant"]) for i in m["imports"]]) for m in c["mods"]],
-                       steps=[(s["k"], s["n"], s.get("role")) for s in c["steps"][:12]]) for c in cases[:5]]
-    ck.extra["rule"] = ("generated graphs (exporter, 1-2 importers each optionally preceded by a faulty variant, plus 4 fixed witnesses) x interleaved calls/probes/snapshots x both engines; "
-                        "every engine history is replayed through Rt/Linking.v instantiate + W (coq/Rt/LinkCheck.v) and judged by the Python oracle; "
-                        "non-trivial = at least two write-here/read-there probes ran across live instances")
-    ev, err = eval_link("c04", items)
+                       steps=[(s["k"], s["n"], s.get("role")) for s in c["steps"][:12]]) for c in cases[:6]]
+    ck.extra["rule"] = ("generated graphs (exporter, 1-2 importers each optionally preceded by a faulty variant, plus 6 fixed witnesses) x interleaved calls/probes/snapshots x both engines; "
+                        "every engine history is replayed through Rt/Linking.v instantiate + W (coq/Rt/LinkCheck.v: instantiation class vs code_accept AND vs extern_match, call results, "
+                        "per-instance globals/memory/pages) and judged by the Python oracle (spec import predicate, write-here/read-there probes, captured initial values, "
+                        "frame of failed instantiations, engine agreement); non-trivial = at least two probes ran across live instances")
+    ev, err = eval_link("c04", items, defs)
     if err:
-        viol("model-eval", {"kind": "model-eval"}, {"err": err}, no_input=True)
+        ck.violation("model-eval", {"kind": "model-eval"}, {"err": err}, no_input=True)
     for k, ai, kind, val in ev:
         ci, eng, idx = owner[k]
         c = cases[ci]
         si = idx[ai] if ai < len(idx) else -1
         st = c["steps"][si] if si >= 0 else None
+        o = c["engines"][eng][si] if si >= 0 else None
         if kind == 7:
             dist["model_out_of_fuel"] += 1
         elif kind == 6:
-            pass  # counted by the oracle
+            pass  # rejected although extern_match accepts: counted by the oracle as a note
         elif kind == 8:
             dist["elem_oob_ignored"] += 1
-            viol("elem-oob-ignored", {"kind": "elem-oob-ignored"},
-                 {"model": "an active element segment is out of range; store.go applyElements ends silently and the instantiation goes on (class %d) where the specification traps" % c["engines"][eng][si]["code"],
-                  "case": c["id"], "witness": c.get("witness"), "step": st, "wasm": c["mods"][st["n"]]["wasm"]})
+            viol("elem-oob-ignored", {"kind": "elem-oob-ignored"}, c, eng, si,
+                 {"model": "an active element segment is out of range; store.go applyElements ends silently and the instantiation goes on (class %d) where the specification traps" % o["code"]})
         elif kind == 5:
             m = c["mods"][st["n"]]
-            o = c["engines"][eng][si]
-            ims = [im for i, im in enumerate(m["imports"]) if im["kind"] == 2 and im["xkind"] == 2 and im["hasmax"] and not im["xhasmax"] and im["max"] >= c["limit"]]
+            ims = [im for im in m["imports"] if im["kind"] == 2 and im["xkind"] == 2 and im["hasmax"] and not im["xhasmax"] and im["max"] >= c["limit"]]
             if ims:
-                viol("memory-import-max-vs-unbounded", {"kind": "memory-import-max-vs-unbounded"}, {"model": "Coq extern_match rejects an import that resolveImports accepts", "case": c["id"], "imports": ims})
+                viol("memory-import-max-vs-unbounded", {"kind": "memory-import-max-vs-unbounded"}, c, eng, si, {"model": "Coq extern_match rejects an import that resolveImports accepts", "imports": ims})
             else:
-                viol("accepts-spec-rejects", {"kind": "accepts-spec-rejects", "engine": eng, "extern": -1}, {"model": "Coq extern_match rejects an accepted import", "case": c["id"], "imports": m["imports"], "obs": o})
+                viol("accepts-spec-rejects", {"kind": "accepts-spec-rejects", "engine": eng, "extern": -1}, c, eng, si, {"model": "Coq extern_match rejects an accepted import", "obs": o})
         else:
             m = c["mods"][st["n"]] if st else None
             if st and st["k"] == "inst" and m["fault"] == "mutoff":
-                viol("elem-offset-mutable-global", {"kind": "elem-offset-mutable-global"}, {"model_class": val, "obs": c["engines"][eng][si], "case": c["id"]})
+                viol("elem-offset-mutable-global", {"kind": "elem-offset-mutable-global"}, c, eng, si, {"model_class": val, "obs": o})
                 continue
-            why = list(oracle(c, eng, c["engines"][eng], c["limit"]))
-            why = [w for w in why if w[0] != "note-stricter"]
-            viol("model-differs", {"kind": "model-differs", "engine": eng, "what": EVENT_NAMES.get(kind, str(kind))},
-                 {"model_value": val, "step_index": si, "step": st, "obs": (c["engines"][eng][si] if si >= 0 else None), "case": c["id"], "witness": c.get("witness"),
-                  "mods": [dict(n=x["n"], fault=x["fault"], wasm=x["wasm"], coq=x["coq"][:4000]) for x in c["mods"]], "oracle": [w[2] for w in why][:3]},
-                 no_input=not why)
+            why = [w for w in oracle(c, eng, c["engines"][eng]) if w[0] not in DEVIATIONS]
+            viol("model-differs", {"kind": "model-differs", "engine": eng, "what": EVENT_NAMES.get(kind, str(kind))}, c, eng, si,
+                 {"model_value": val, "obs": o, "coq": [x["coq"][:3000] for x in c["mods"]], "oracle": [w[2] for w in why][:3]}, no_input=not why)
     if not proofs_ok and not any(not v["no_input"] for v in ck.violations):
         ck.violation("proof-broken", {"kind": "proof-broken"}, getattr(ck, "proof_failure", {}), no_input=True)
     return ck.finish()
